@@ -114,9 +114,11 @@ func inlineRewrite(pkgs []*packages.Package, overlay map[string][]byte) (map[str
 			}
 			for _, d := range f.Decls {
 				fd, ok := d.(*ast.FuncDecl)
-				if !ok || fd.Body == nil || len(fd.Body.List) != 1 || fd.Name.IsExported() || inlineExempt[fd.Name.Name] || fd.Type.TypeParams != nil {
+				if !ok || fd.Body == nil || len(fd.Body.List) != 1 || fd.Name.IsExported() || inlineExempt[fd.Name.Name] {
 					continue
 				}
+				// (a generic helper is fine as long as its expression does not mention its type parameters: checked
+				// by the type-check of the rewritten program)
 				ret, ok := fd.Body.List[0].(*ast.ReturnStmt)
 				if !ok || len(ret.Results) != 1 {
 					continue
